@@ -49,6 +49,7 @@ mod imp {
         static LOG: RefCell<Vec<Op>> = RefCell::new(Vec::new());
         static HARVEST_ON: Cell<bool> = Cell::new(false);
         static HARVEST: RefCell<Vec<Vec<u8>>> = RefCell::new(Vec::new());
+        static RACE_ON: Cell<bool> = Cell::new(false);
         static RACE: RefCell<Vec<(u8, u8)>> = RefCell::new(Vec::new());
     }
 
@@ -82,8 +83,11 @@ mod imp {
     }
 
     pub fn race(what: u8, value: u8) {
-        RACE.with(|r| r.borrow_mut().push((what, value)));
+        if RACE_ON.with(|r| r.get()) {
+            RACE.with(|r| r.borrow_mut().push((what, value)));
+        }
     }
+    pub fn race_enable(on: bool) { RACE_ON.with(|r| r.set(on)) }
 
     pub fn reset_counters() { COUNTERS.with(|c| c.set(Counters::default())) }
     pub fn counters() -> Counters { COUNTERS.with(|c| c.get()) }
